@@ -64,6 +64,7 @@ func drawProto(rt *rapid.T) Proto {
 		StateRootInHeader: rapid.Bool().Draw(rt, "srih"),
 		P2PSig:            rapid.IntRange(0, 3).Draw(rt, "p2psig") != 0,
 		MTB:               []uint32{1000, 12, 8, 20}[rapid.IntRange(0, 3).Draw(rt, "mtb")],
+		HF:                rapid.IntRange(0, 3).Draw(rt, "hf"),
 	}
 }
 
@@ -402,6 +403,7 @@ func (r *run) tallyAERs(b *block.Block) {
 		if err == nil && len(aers) > 0 {
 			if aers[0].VMState.HasFlag(2) { // FAULT
 				r.out.Probes["tx_fault"]++
+				r.log.Addf("  tx %s FAULT %s", tx.Hash().StringLE()[:8], errClass(fmt.Errorf("%s", aers[0].FaultException)))
 			} else {
 				r.out.Probes["tx_halt"]++
 			}
@@ -411,8 +413,8 @@ func (r *run) tallyAERs(b *block.Block) {
 
 func errClass(err error) string {
 	s := err.Error()
-	if len(s) > 80 {
-		s = s[:80]
+	if len(s) > 200 {
+		s = s[:200]
 	}
 	return s
 }
